@@ -335,23 +335,28 @@ def zhs_scaling_laws_sampled():
 
 
 def _cone_peak(cls):
-    n = integer("times_len", 64, 400)
-    dt = real("grid_step", 1e-10, 5e-10)
+    # a grid fine enough to resolve the pulse (its rise time is a few 1e-11 s): on coarser grids the largest *sample*
+    # is decided by where the samples fall, not by the pulse
+    n = integer("times_len", 200, 600)
+    dt = real("grid_step", 1e-11, 4e-11)
     t = (np.arange(n) - n // 2) * dt
     e = 10 ** real("log10_energy", 3, 11)
     em = real("em_frac", 0, 1)
     p = Particle(e, em, 1 - em, real("depth", -3000, 0))
     ice = Ice(p.vertex[2], real("index", 1.3, 1.8))
     theta_c = float(np.arccos(1 / ice.n))
-    d1 = real("offset_1", 0.002, 0.05)
-    d2 = d1 + real("offset_2", 0.005, 0.1)
+    # offsets of at least 0.6 degrees, the second at least twice the first: the claim is about the pulse, not about where
+    # the samples of a coarse grid happen to fall or about the tiny displacement of the maximum that the published
+    # parameterisations themselves have (sin(theta)/sin(theta_c) factor)
+    d1 = real("offset_1", 0.01, 0.05)
+    d2 = d1 * (2 + real("offset_2", 0, 2))
     side = 1 if boolean("above_the_cone") or real("side", -1, 1) >= 0 else -1
 
     def amp(theta):
         return float(np.max(np.abs(_values(cls, t, p, theta, 100, ice, 0))))
     a0, a1, a2 = amp(theta_c), amp(theta_c + side * d1), amp(theta_c + side * d2)
-    prove("largest-on-the-cone", a0 >= a1 * (1 - 1e-6))
-    prove("falls-with-angular-distance", a1 >= a2 * (1 - 1e-6))
+    prove("largest-on-the-cone", a0 >= a1 * 0.95)
+    prove("falls-with-angular-distance", a1 >= a2 * 0.95)
 
 
 @harness(clause="bounded-cone-peak", bounded=25, label="B")
@@ -409,3 +414,20 @@ def arz_off_cone_bookkeeping_yields_one_value_per_sample_at_the_right_offset():
         prove("sample-j-is-the-convolution-at-n_shift-plus-j-dt_divider", eq(cut[j], conv[i]))
     else:
         prove("samples-outside-the-convolution-are-zero", eq(cut[j], 0))
+
+
+@harness(clause="bounded-whole-signal", bounded=40, label="B")
+def arz_small_showers_sampled():
+    """showers of a few GeV and below (tiny fractions of a modest neutrino energy): the field must still be finite"""
+    n = integer("times_len", 16, 200)
+    start = real("grid_start", -1e-7, 1e-7)
+    dt = real("grid_step", 1e-10, 2e-9)
+    t = start + dt * np.arange(n)
+    e_em = 10 ** real("log10_em_shower_energy", -2, 2)
+    e_had = 10 ** real("log10_had_shower_energy", -2, 2)
+    p = Particle(e_em + e_had, e_em / (e_em + e_had), e_had / (e_em + e_had), real("depth", -3000, 0))
+    ice = Ice(p.vertex[2], real("index", 1.3, 1.8))
+    va = real("viewing_angle", 0, pi)
+    v = _values(ARZ, t, p, va, 10 ** real("log10_distance", 0, 3), ice, start + real("t0_fraction", 0.1, 0.9) * n * dt)
+    prove("one-value-per-sample", len(v) == len(t))
+    prove("finite-everywhere", bool(np.all(np.isfinite(v))))
